@@ -664,11 +664,17 @@ class Normalizer:
             return None
         if not enum and not isinstance(tgt, ast.Name):
             return None
-        try:
-            v = self.expr(src_, dict(env))
-        except Unsupported:
+        # only a name bound to, or a direct call of, eye / identity is looked at (evaluating other iterables here would be wasted work)
+        if isinstance(src_, ast.Name):
+            v = env.get(src_.id)
+        elif isinstance(src_, ast.Call) and isinstance(src_.func, ast.Attribute) and src_.func.attr in ('eye', 'identity'):
+            try:
+                v = self.expr(src_, dict(env))
+            except Unsupported:
+                return None
+        else:
             return None
-        if not (isinstance(v, tuple) and v[0] == 'call' and v[1] in ('numpy.eye', 'numpy.identity') and len(v[2]) == 1 and not v[3]):
+        if not (isinstance(v, tuple) and v and v[0] == 'call' and v[1] in ('numpy.eye', 'numpy.identity') and len(v[2]) == 1 and not v[3]):
             return None
         nname = '$eye_n_%d' % st.lineno
         env[nname] = v[2][0]
@@ -1008,6 +1014,11 @@ class Normalizer:
             return b
         if c[0] == 'not':
             return self.ite(c[1], b, a)
+        # one polarity per test: `x != y` / `x is not y` / `x not in y` (and the complements of integer comparisons) select the other arm
+        if c[0] == 'cmp' and len(c) == 4 and (c[1] in ('!=', 'is not', 'not in')
+                                               or (c[1] in ('>=', '<=') and self._counterish(c[2]) and self._counterish(c[3]))):
+            flip = {'!=': '==', 'is not': 'is', 'not in': 'in', '>=': '<', '<=': '>'}[c[1]]
+            return self.ite(canon_cmp(flip, c[2], c[3]) if flip in _CMP_FLIP or flip == '==' else ('cmp', flip, c[2], c[3]), b, a)
         # N22: inside the branch where c holds, a nested conditional on the same c is its first arm (and vice versa)
         a, b = self.assume(a, c, True), self.assume(b, c, False)
         if a == b:
@@ -1732,6 +1743,8 @@ class Normalizer:
             return self.pshape.get(name)
         if k == 'block':
             return t[1]
+        if k == 'shapeonly' and len(t) == 4:
+            return tuple(int(x[1]) if is_num(x) else '?' for x in (t[1], t[2]))        # N34: a buffer known by its extents only
         if k == 'attr' and len(t) == 3 and t[1] == ('p', 0) and t[2] in self.attr_shapes:
             return self.attr_shapes[t[2]]
         if k in ('neg',):
